@@ -290,9 +290,11 @@ func C17(args []string) {
 		e := &vs.Explorer{Harness: c17Harness(sc, &o), Mode: vs.Chess, Cfg: vs.Config{Horizon: time.Hour, MaxSteps: 100000}, MaxExec: 4000}
 		if r.Thorough() {
 			e.MaxExec = 150000
+			e.Deadline = time.Now().Add(10 * time.Minute) // per scenario; a cap is reported, never a verdict
 		}
 		e.Check = func(choices []int, res *vs.Result) {
 			r.Evals.Add(1)
+			r.Heartbeat()
 			for _, fd := range c17Judge(sc, &o, res) {
 				v := sc
 				v.Choices = append([]int{}, choices...)
